@@ -1365,7 +1365,7 @@ def run(pid, tier, seed, replay=None):
         # ---- trace validation
         t0 = time.time()
         traces.sort(key=lambda t: (t[0], t[1]))
-        cap = 12150 if thorough else 1350
+        cap = 8100 if thorough else 1350
         n_recorded = len(traces)
         if len(traces) > cap:
             keep = sorted(rng.sample(range(len(traces)), cap))
